@@ -377,7 +377,7 @@ def run(ctx: Any, prog: Program) -> None:
     ctx.rule('C14.X3', 'binary token sequences (slots, terminated strings with encoding, byte runs, reference sentinels) agree per version, type and shape', floor=100)
     ctx.rule('C14.X4', 'binary/string converters exist per type, share one struct, and agree on arity and matrix cell positions', floor=40)
     ctx.rule('C14.X5', 'KeyValues2: quoted str slots are escaped and encoded with the selected encoding; keywords agree; reader decodes escapes', floor=12)
-    ctx.rule('C14.X6', 'stub elements created by the parsers carry the UUID read from the file', floor=2)
+    ctx.rule('C14.X6', 'stub elements created by the parsers carry the UUID read from the file; writers never queue a stub as an element', floor=4)
     ctx.rule('C14.X7', 'the attribute count and the loop skipping the name attribute use the same criterion', floor=1)
     ctx.rule('C14.X8', 'KV1 bridge: both directions use the same type names, keys and reserved names', floor=5)
 
@@ -647,6 +647,26 @@ def run(ctx: Any, prog: Program) -> None:
                               'with a fresh random UUID instead of the referenced one', func=f'Element.{fname}', text=f'{fname}: stub factory receives the uuid')
     if n6 < 2:
         raise AnalysisError('stub construction sites not found in the parsers')
+    # writer side: a stub (or NULL) reference is never queued for export as an element of its own
+    for fname in ('export_binary', 'export_kv2'):
+        fn = em[fname]
+        queue = [c for c in ast.walk(fn) if isinstance(c, ast.Call) and dotted(c.func) == 'elements.append' and c.args and isinstance(c.args[0], ast.Name)]
+        if not queue:
+            ctx.shape('C14.X6', False, dmx, fn, 'element queue of the pre-pass not found', func=f'Element.{fname}', text=f'{fname}: stubs not queued')
+            continue
+        var = queue[0].args[0].id
+        # conditions under which the loop body skips / includes the element
+        loop = next((l for l in ast.walk(fn) if isinstance(l, ast.For) and isinstance(l.target, ast.Name) and l.target.id == var and any(c is queue[0] for c in ast.walk(l))), None)
+        tests = [ast.unparse(n.test) for n in ast.walk(loop) if isinstance(n, ast.If)] if loop is not None else []
+        excludes_all = any(f'isinstance({var}, StubElement)' in t for t in tests) or any(f'{var}.is_stub' in t and (f'{var}.is_null' in t or f'{var} is NULL' in t) for t in tests)
+        only_null = any(t in (f'{var} is NULL', f'{var}.is_null') for t in tests)
+        if excludes_all:
+            ctx.check('C14.X6', True, dmx, queue[0], 'stub and NULL references are skipped by the pre-pass', func=f'Element.{fname}', text=f'{fname}: stubs not queued')
+        elif only_null:
+            ctx.check('C14.X6', False, dmx, queue[0], f'the pre-pass of {fname} only skips NULL: a stub reference is queued and written out as an ordinary (empty) element, so after parsing the reference '
+                      'points at that element and is no longer a stub', func=f'Element.{fname}', text=f'{fname}: stubs not queued')
+        else:
+            ctx.shape('C14.X6', False, dmx, queue[0], f'guard around the element queue not recognised: {tests}', func=f'Element.{fname}', text=f'{fname}: stubs not queued')
     # ---- X7 ------------------------------------------------------------------------------------------------
     cnt = [n for n in walk_no_nested(eb) if isinstance(n, ast.Assign) and dotted(n.targets[0]) == 'attr_count']
     if len(cnt) != 1:
@@ -719,6 +739,7 @@ MUTANTS: List[Dict[str, Any]] = [
     {'id': 'kv2_value_raw', 'file': 'dmx.py', 'find': "                    escape_text(attr.val_str).encode(encoding),", 'replace': "                    attr.val_str.encode(encoding),", 'expect': 'C14.X5'},
     {'id': 'kv2_reader_no_escapes', 'file': 'dmx.py', 'find': "        tok = Tokenizer(file, allow_escapes=True)\n        for token, tok_value in tok:\n            if token is Token.STRING:\n                elem_name = tok_value", 'replace': "        tok = Tokenizer(file, allow_escapes=False)\n        for token, tok_value in tok:\n            if token is Token.STRING:\n                elem_name = tok_value", 'expect': 'C14.X5'},
     {'id': 'kv2_keyword_changed', 'file': 'dmx.py', 'find': "            if attr_name == 'id' and typ_name == 'elementid':", 'replace': "            if attr_name == 'id' and typ_name == 'element_id':", 'expect': 'C14.X5'},
+    {'id': 'kv2_stub_queued', 'file': 'dmx.py', 'find': "                for subelem in attr.iter_elem():\n                    if isinstance(subelem, StubElement):\n                        continue", 'replace': "                for subelem in attr.iter_elem():\n                    if subelem is NULL:\n                        continue", 'expect': 'C14.X6'},
     {'id': 'stub_defaultdict', 'file': 'dmx.py', 'find': "        stubs: dict[UUID, StubElement] = {}\n\n        elements = []", 'replace': "        stubs: dict[UUID, StubElement] = collections.defaultdict(StubElement.stub)\n\n        elements = []", 'expect': 'C14.X6'},
     {'id': 'stub_no_uuid', 'file': 'dmx.py', 'find': "                                child_elem = stubs[uuid] = StubElement.stub(uuid)", 'replace': "                                child_elem = stubs[uuid] = StubElement.stub()", 'expect': 'C14.X6'},
     {'id': 'count_by_folded_key', 'file': 'dmx.py', 'find': "            attr_count = sum(1 for attr in elem.values() if attr.name != 'name')\n", 'replace': "            attr_count = len(elem)\n            if 'name' in elem._members:\n                attr_count -= 1\n", 'expect': 'C14.X7'},
